@@ -1987,6 +1987,8 @@ class Change(Output):
 
     def _plot_core(self, data):
         labels = data.get_legend()
+        if len(data.times) < 2:
+            verif.util.error("The change diagram needs at least two times")
         # Find range
         [obs, fcst] = data.get_scores([verif.field.Obs(), verif.field.Fcst()], 0)
         if self.thresholds is None:
